@@ -158,10 +158,52 @@ func (c BatchCase) Batch() spec.Batch {
 			doc.Fields = []spec.Field{f}
 			b.Docs = append(b.Docs, doc)
 		}
+	case "wide":
+		// N fields in one document (field ids beyond one byte), a 300-byte and a 70000-byte
+		// term, a stored value with 40 array positions
+		d0 := spec.Doc{ID: "w0"}
+		for f := 0; f < c.N; f++ {
+			fl := spec.Field{Name: fmt.Sprintf("f%03d", f), Len: 1, DV: f%50 == 0, Stored: f%97 == 0, Value: []byte(fmt.Sprintf("v%d", f)),
+				Toks: []spec.Tok{{Term: fmt.Sprintf("t%d", f%7), Freq: 1, Locs: []spec.Loc{{Pos: 1 + f, Start: f, End: f + 1}}}}}
+			d0.Fields = append(d0.Fields, fl)
+		}
+		long1 := string(pseudoRandomLetters(300, 3))
+		long2 := string(pseudoRandomLetters(70000, 5))
+		aps := make([]uint64, 40)
+		for i := range aps {
+			aps[i] = uint64(i * i)
+		}
+		d1 := spec.Doc{ID: "w1", Fields: []spec.Field{
+			{Name: fmt.Sprintf("f%03d", c.N/2), Len: 3, Stored: true, Value: []byte("forty"), AP: aps,
+				Toks: []spec.Tok{{Term: long1, Freq: 2, Locs: []spec.Loc{{Pos: 1, Start: 0, End: 300, AP: aps[:9]}}}, {Term: long2, Freq: 1}, {Term: "t1", Freq: 1}}},
+		}}
+		b.Docs = []spec.Doc{d0, d1}
+		if c.Comp {
+			b.Docs[0].Composite = []spec.Field{compositeOf(d0.Fields)}
+		}
 	default:
 		panic("unknown batch family " + c.Fam)
 	}
 	return b
+}
+
+func pseudoRandomLetters(n int, seed uint32) []byte {
+	b := pseudoRandom(n, seed)
+	for i := range b {
+		b[i] = 'a' + b[i]%26
+	}
+	return b
+}
+
+// WideBatches enumerates the "wide" family.
+func WideBatches(tier string, emit func(BatchCase)) {
+	for _, n := range []int{255, 256, 257, 300} {
+		for _, comp := range []bool{false, true} {
+			for _, mode := range []uint32{1, 1026} {
+				emit(BatchCase{Fam: "wide", N: n, Comp: comp, Mode: mode})
+			}
+		}
+	}
 }
 
 // NonTrivial says whether the case exercises more than the trivial path: at
@@ -173,7 +215,7 @@ func (c BatchCase) NonTrivial() bool {
 			nz++
 		}
 	}
-	return nz >= 2 || c.Fam == "boundary"
+	return nz >= 2 || c.Fam == "boundary" || c.Fam == "wide"
 }
 
 func (c BatchCase) Key() string {
